@@ -152,13 +152,16 @@ package grpc
 // every option applied to that same object, and the returned interceptor closes over it.
 //@ func UnaryServerInterceptor
 //@   loop 1 invariant[C14] applies_options_to_the_config: -1 <= #rangeindex && #rangeindex < len(opts)
+//@   loop 1 invariant[C14] defaults_before_any_option: ncalls("grpc.defaults") == 1
 //@   ensures[C14] closes_over_config: isfunc(result, "grpc.UnaryServerInterceptor$1") && *captured(result, "grpc.UnaryServerInterceptor$1", 0) != nil && fresh(*captured(result, "grpc.UnaryServerInterceptor$1", 0))
 //@   ensures[C14] defaults_once: ncalls("grpc.defaults") == 1 && callarg("grpc.defaults", 0, 0) == *captured(result, "grpc.UnaryServerInterceptor$1", 0)
 //@ func UnaryClientInterceptor
 //@   loop 1 invariant[C14] applies_options_to_the_config: -1 <= #rangeindex && #rangeindex < len(opts)
+//@   loop 1 invariant[C14] defaults_before_any_option: ncalls("grpc.defaults") == 1
 //@   ensures[C14] closes_over_config: isfunc(result, "grpc.UnaryClientInterceptor$1") && *captured(result, "grpc.UnaryClientInterceptor$1", 0) != nil && fresh(*captured(result, "grpc.UnaryClientInterceptor$1", 0))
 //@   ensures[C14] defaults_once: ncalls("grpc.defaults") == 1 && callarg("grpc.defaults", 0, 0) == *captured(result, "grpc.UnaryClientInterceptor$1", 0)
 //@ func StreamServerInterceptor
 //@   loop 1 invariant[C14] applies_options_to_the_config: -1 <= #rangeindex && #rangeindex < len(opts)
+//@   loop 1 invariant[C14] defaults_before_any_option: ncalls("grpc.streamDefaults") == 1
 //@   ensures[C14] closes_over_config: isfunc(result, "grpc.StreamServerInterceptor$1") && *captured(result, "grpc.StreamServerInterceptor$1", 0) != nil && fresh(*captured(result, "grpc.StreamServerInterceptor$1", 0))
 //@   ensures[C14] defaults_once: ncalls("grpc.streamDefaults") == 1 && callarg("grpc.streamDefaults", 0, 0) == *captured(result, "grpc.StreamServerInterceptor$1", 0)
